@@ -714,6 +714,21 @@ func runC10(o *opts) error {
 		}
 	}
 
+	// stream 1a (c10_lit.go): literals that are tokens of the grammar and have no value (numbers beyond float64 / int64,
+	// dates that do not exist, second 60, over-long tokens) at every literal position of every literal-taking construct, and
+	// the edge values that do convert; every third one also against the bolt-backed store (x renamed to number / datetime symbols)
+	var litStore []string
+	nlit := 0
+	c10lFilters(o.thorough(), func(filter string) {
+		emitS("lit", filter, c10Typings)
+		if nlit%3 == 0 {
+			if f, clean, found := c10sRename(filter, c10lStoreTargets[(nlit/3)%len(c10lStoreTargets)]); clean && found {
+				litStore = append(litStore, f)
+			}
+		}
+		nlit++
+	})
+
 	// stream 1b: short valid sentences with ONE foreign character inserted at every position, first character
 	// first: where the lexer does not recognise the character, dropping it leaves a valid filter, so that only the
 	// lexer's error report stands between the text and its silent acceptance (inside a string literal it is data)
@@ -806,6 +821,17 @@ func runC10(o *opts) error {
 	c10sFilters(sentences, func(stream, filter string) {
 		emitS(stream, filter, storeOnly)
 		boltFilters = append(boltFilters, filter)
+	})
+	for _, f := range litStore {
+		emitS("boltlit", f, storeOnly)
+	}
+	// scopes of nested sub-queries over stores whose symbol names clash (c10_nest.go)
+	nnest := 0
+	c10nFilters(o.thorough(), func(stream, filter string) {
+		emitS(stream, filter, storeOnly)
+		if nnest++; o.thorough() && nnest%8 == 0 {
+			boltFilters = append(boltFilters, filter) // token-level mutations of nested sub-queries: thorough tier
+		}
 	})
 	nbm := 4000
 	if o.thorough() {
